@@ -604,6 +604,32 @@ func (f *contFam) seqOp(w *World, o ContOp) {
 		if want := (o.A-1)*1 + 100; o.A >= 1 && n != want {
 			v("remove-exactly-one", "", fmt.Sprintf("%d registrations of one function, one RemoveListener: emit ran it %d times (counter %d, want %d)", o.A, n%100, n, want))
 		}
+	case "EmRemoveDuringEmit":
+		// listeners may remove listeners while an emit is in progress; every listener registered when the
+		// emit started is still called exactly once in that emit (o.A selects On or Once for the victim)
+		em := types.NewEventEmitter()
+		var order []int
+		var victim types.Listener = func(...any) { order = append(order, 2) }
+		em.On("x", func(...any) { order = append(order, 1); em.RemoveListener("x", victim) })
+		if o.A%2 == 0 {
+			em.Once("x", victim)
+		} else {
+			em.On("x", victim)
+		}
+		em.On("x", func(...any) { order = append(order, 3) })
+		em.Emit("x")
+		if ints(order) != "1,2,3" {
+			kind := "on"
+			if o.A%2 == 0 {
+				kind = "once"
+			}
+			v("emit-snapshot", kind+"-listener-removed-during-emit", fmt.Sprintf("emit called %v, want [1 2 3]: a listener registered when the emit started was removed by an earlier listener of the same emit and not called", order))
+		}
+		order = nil
+		em.Emit("x")
+		if ints(order) != "1,3" {
+			v("emit-snapshot", "second", fmt.Sprintf("second emit called %v, want [1 3] (the removed listener is gone)", order))
+		}
 	case "EmOrder":
 		em := types.NewEventEmitter()
 		var order []int
@@ -810,7 +836,7 @@ func GenCont(prop string, seed uint64, thorough bool) *Scenario {
 	case "seq":
 		n := g.rng(3, 12)
 		for i := 0; i < n; i++ {
-			o := ContOp{Task: "t0", Op: g.picks("Push", "Unshift", "Splice", "Get", "Set", "Slice", "RangeAndSplice", "EmNil", "EmRemoveOne", "EmOrder", "Unshift", "Splice")}
+			o := ContOp{Task: "t0", Op: g.picks("Push", "Unshift", "Splice", "Get", "Set", "Slice", "RangeAndSplice", "EmNil", "EmRemoveOne", "EmOrder", "EmRemoveDuringEmit", "Unshift", "Splice")}
 			k := g.rng(0, 3)
 			for j := 0; j < k; j++ {
 				val++
